@@ -76,12 +76,12 @@ def cmd_check(patch, pids, tier="quick"):
         shutil.rmtree(tmp, ignore_errors=True)
 
 
-def cmd_all(tier="quick", seed="1"):
+def cmd_all(tier="quick", seed="1", match=None):
     base = os.path.join(VERIF, "seeded")
     rows = []
     for d in sorted(os.listdir(base)):
         meta_p = os.path.join(base, d, "meta.json")
-        if not os.path.exists(meta_p):
+        if not os.path.exists(meta_p) or (match and match not in d):
             continue
         meta = json.load(open(meta_p))
         rows.append((d, meta["property"], os.path.join(base, d, "patch.diff")))
@@ -104,7 +104,7 @@ def cmd_all(tier="quick", seed="1"):
             part = line.strip()[1:].split("]")[0] if line.strip().startswith("[") else ""
             results[d] = {"property": pid, "tier": tier, "outcome": {0: "missed", 1: "caught", 2: "harness-error"}.get(rc, str(rc)),
                           "caught_by_part": part, "first_message": line.strip()[:300]}
-    if seed == "1":
+    if seed == "1" and not match:
         with open(os.path.join(base, "results.json"), "w") as f:
             json.dump(results, f, indent=1, sort_keys=True)
     print("seeded changes not caught by their property's %s check: %d of %d" % (tier, bad, len(rows)))
@@ -126,6 +126,7 @@ if __name__ == "__main__":
     if a and a[0] == "all":
         tier = a[a.index("--tier") + 1] if "--tier" in a else "quick"
         seed = a[a.index("--seed") + 1] if "--seed" in a else "1"
-        sys.exit(cmd_all(tier, seed))
+        match = a[a.index("--match") + 1] if "--match" in a else None
+        sys.exit(cmd_all(tier, seed, match))
     print(__doc__)
     sys.exit(2)
